@@ -1,6 +1,7 @@
 package main
 
 import (
+	"sort"
 	"math/rand"
 
 	"tags.cncf.io/container-device-interface/pkg/parser"
@@ -90,6 +91,36 @@ func (parserStream) Generate(rng *rand.Rand, tier string, emit func(Case)) {
 		}
 	}
 	rec(nil, 0)
+	// the exported character classes: every code point up to U+02FF, the boundaries (±1) of every range on which
+	// the current code returns true (computed here by running it on all code points), the ends of the code space
+	var none []string
+	pts := map[int]bool{0xFFFD: true, 0x10FFFF: true, 0x10FFFE: true, 0xD7FF: true, 0xE000: true, 0xFF10: true, 0xFF21: true, 0x0660: true}
+	for i := 0; i < 0x300; i++ {
+		pts[i] = true
+	}
+	for _, f := range []func(rune) bool{parser.IsLetter, parser.IsDigit, parser.IsAlphaNumeric} {
+		f := f
+		for _, r := range trueRanges(0x10FFFF, func(i int) bool { return f(rune(i)) }, &none, "") {
+			for _, x := range []int{r[0] - 1, r[0], r[1], r[1] + 1} {
+				if x >= 0 && x <= 0x10FFFF && len(pts) < 6000 {
+					pts[x] = true
+				}
+			}
+		}
+	}
+	for i := 0; i < 300; i++ {
+		pts[rng.Intn(0x110000)] = true
+	}
+	keys := make([]int, 0, len(pts))
+	for k := range pts {
+		keys = append(keys, k)
+	}
+	sort.Ints(keys)
+	for _, k := range keys {
+		for _, fn := range []string{"letter", "digit", "alnum"} {
+			emit(Case{"op": "charclass", "fn": fn, "r": k})
+		}
+	}
 	// validators and ParseDevice on all strings up to length 3 over the alphabet
 	var rec2 func(prefix []byte, depth int)
 	rec2 = func(prefix []byte, depth int) {
@@ -161,6 +192,16 @@ func (parserStream) Execute(c Case) {
 	case "parsedev":
 		v, cl, n := parser.ParseDevice(s)
 		obs["v"], obs["c"], obs["n"] = hx(v), hx(cl), hx(n)
+	case "charclass":
+		r := rune(kindIdx(c["r"]))
+		switch c["fn"] {
+		case "letter":
+			obs["ok"] = parser.IsLetter(r)
+		case "digit":
+			obs["ok"] = parser.IsDigit(r)
+		default:
+			obs["ok"] = parser.IsAlphaNumeric(r)
+		}
 	case "qname":
 		obs["s"] = hx(parser.QualifiedName(unhx(c["v"]), unhx(c["c"]), unhx(c["n"])))
 	}
